@@ -95,6 +95,8 @@ class LoopMixin:
             return ("static", [self.lit(i) for i in x])
         if v.k == "ref" and v.note and v.note[0] == "static_items" and st.items(v.t).eq(v.note[2]):
             return ("static", v.note[1])
+        if v.k == "iter" and v.xs[0] in self.iter_kinds:
+            return self.iter_kinds[v.xs[0]](self, v, st, node)
         if v.k == "iter":
             kind = v.xs[0]
             if kind == "static":
@@ -265,6 +267,7 @@ class LoopMixin:
             seq, n, mk = src[1], z3.Length(src[1]), src[3]
         else:
             seq, n, mk = None, src[1], src[3]
+        proto = src[4] if len(src) > 4 else {}
         entry = st.fork()
         ghost = {"_n": vint(n), "_entry": None}
         if seq is not None:
@@ -274,6 +277,8 @@ class LoopMixin:
             st.yielded = z3.Empty(SeqV)
         for g, text in (spec.get("ghost_init") or {}).items():
             st.env[g] = self.spec_value(text, st, None, old=entry)
+        if spec.get("ghost_init"):
+            st.ghost = dict(st.ghost, ghost_names=tuple(set(st.ghost.get("ghost_names", ())) | set(spec["ghost_init"])))
         for lem in (spec.get("lemmas") or []):
             st.assume(self.spec_eval(lem, st, dict(ghost, _i=vint(0)), old=entry))
         # inv-init
@@ -296,12 +301,19 @@ class LoopMixin:
         for lem in (spec.get("lemmas") or []):
             ex.assume(self.spec_eval(lem, ex, gi, old=entry))
         if feasible(ex.pc):
-            ex.env.update({k: v for k, v in gi.items() if k in ("_seq",)} if False else {})
-            out += self.exec_block(s.orelse, [ex]) if s.orelse else [ex]
+            exits = proto["exit"](ex) if proto.get("exit") else [ex]
+            for e2 in exits:
+                if e2.status == "run":
+                    out += self.exec_block(s.orelse, [e2]) if s.orelse else [e2]
+                else:
+                    out.append(e2)
         # body
         b = st
         b.pc.append(i < n)
         if feasible(b.pc):
+            if proto.get("start"):
+                for nm, goal in proto["start"](b, i):
+                    self.oblige(b, "pre@call", f"loop{ordn}:{nm}", goal, s, meta={"clause": nm})
             for lem in (spec.get("lemmas") or []):
                 # ground instances of definitional unfoldings / proved rules for this iteration (assumed)
                 b.assume(self.spec_eval(lem, b, gi, old=entry))
@@ -331,6 +343,7 @@ class LoopMixin:
         for g, text in ghost.items():
             genv[g] = self.spec_value(text, st, None, old=entry)
         st.env.update(genv)
+        st.ghost = dict(st.ghost, ghost_names=tuple(set(st.ghost.get("ghost_names", ())) | set(genv)))
         for j, inv in enumerate(spec.get("invariant", [])):
             self.oblige(st, "inv-init", f"loop{ordn}#{j}", self.spec_eval(inv, st, None, old=entry, goal=True), s, meta={"clause": inv})
         self.havoc_for_loop(st, s.body, spec, s)
